@@ -3,6 +3,7 @@ anything not recognised becomes an Unknown constructor for which the theorems ha
 
 
 def generate_all():
-    from . import routes_table, options_table
+    from . import routes_table, options_table, template_sites
     routes_table.generate()
     options_table.generate()
+    template_sites.generate()
